@@ -8,6 +8,7 @@ import (
 	"context"
 	"encoding/csv"
 	"errors"
+	"fmt"
 	"io"
 	"os"
 	"sort"
@@ -55,6 +56,9 @@ func writeChunk(rows [][]string) (*os.File, error) {
 	}
 	return f, nil
 }
+
+// maxCellLen is the longest string the row encoding can hold (16-bit length prefix)
+const maxCellLen = 65535
 
 // Sorter sorts input CSV based on PK and output blocks of 255 rows each
 type Sorter struct {
@@ -130,6 +134,11 @@ func (s *Sorter) Reset() {
 }
 
 func (s *Sorter) AddRow(row []string) error {
+	for i, str := range row {
+		if len(str) > maxCellLen {
+			return fmt.Errorf("cell value at column %d is too long (%d > %d bytes)", i, len(str), maxCellLen)
+		}
+	}
 	s.size += 4
 	for _, str := range row {
 		s.size += uint64(len(str)) + 2
@@ -184,6 +193,11 @@ func (s *Sorter) SortFile(f io.ReadCloser, pk []string) (err error) {
 	if err != nil {
 		return
 	}
+	for i, str := range row {
+		if len(str) > maxCellLen {
+			return fmt.Errorf("column name at position %d is too long (%d > %d bytes)", i, len(str), maxCellLen)
+		}
+	}
 	s.SetColumns(row)
 	s.PK, err = slice.KeyIndices(s.Columns, pk)
 	if err != nil {
@@ -197,7 +211,9 @@ func (s *Sorter) SortFile(f io.ReadCloser, pk []string) (err error) {
 		} else if err != nil {
 			return
 		}
-		s.AddRow(row)
+		if err = s.AddRow(row); err != nil {
+			return
+		}
 	}
 	if s.pt != nil {
 		s.pt.Done()
